@@ -50,6 +50,19 @@ CHECKS['C16'] = {
     'technique': 'deterministic simulation: baton-scheduled real threads with seeded explicit schedules + seeded operation histories, differential vs pristine-interpreter run',
 }
 
+CHECKS['C02'] = {
+    'level': 'exploration',
+    'text': ('Seeded search over (query, producer) pairs with the record producer and the output writer behind the simulator: finite tables, endless generators (dense, sparse, periodic) '
+             'and producers that stall without EOF. Decides the consumption / termination clause at the iterator seam: a bounded non-buffering query may pull no more records than the '
+             'unbounded run had pulled when it wrote its n-th output, so it terminates on endless and stalled input; TOP/LIMIT output equals the first n records of the unbounded run. '
+             'As a by-product the recorded finite histories are compared with a sort/dedup/truncate model (ties in input order, DESC = reverse, DISTINCT first occurrence, DISTINCT COUNT). '
+             'Both the Python engine and rbql.js (through the Node driver) are executed. Sampling, not proof.'),
+    'design_ref': 'DESIGN.md 3.1',
+    'note': ('Trusted: the engine\'s own unsorted projected stream as input of the order model; the unbounded run as reference for the bound. n = 0 is treated leniently (pulls up to the first '
+             'candidate tolerated). The ordering clauses are pure functions of the input: they are checked because the histories exist, the level claimed rests on the producer simulation.'),
+    'technique': 'deterministic simulation: unbounded / stalling record producers and seam traces (pulls vs writes), seeded query and producer search, reference-model comparison',
+}
+
 NOT_APPLICABLE = {
     'C01': 'pure function of (query text, table): no stream schedule, interleaving, history or fault in the statement, nothing for a simulator to own',
     'C03': 'aggregate values are a pure function of the group records in input order; accumulator state never meets a seam',
@@ -67,7 +80,7 @@ NOT_APPLICABLE = {
     'C19': 'JS engine vs reference semantics is a pure differential statement; its last clause (caller arrays unmodified) is observed by the C06 JS workload',
 }
 
-PENDING = {pid: 'check not built yet in this commit (simulation target, planned in DESIGN.md section 3); not claimed until its check exists' for pid in ('C02', 'C06', 'C20')}
+PENDING = {pid: 'check not built yet in this commit (simulation target, planned in DESIGN.md section 3); not claimed until its check exists' for pid in ('C06', 'C20')}
 
 
 def main():
